@@ -135,6 +135,12 @@ InvC18 == C18_Listing
 ActC09 == [][IsCall("Reset") \/ C09_Step]_tvars
 ActErrNoEffect == [][IsCall("Reset") \/ ErrNoEffectStep]_tvars
 
+\* on real traces a needed deviation is printed with the line that needed it
+TraceKnown(prop, tag) == PrintT(<<"KNOWN-FINDING", prop, tag, "line", l>>)
+
+\* bookkeeping for the runner (always TRUE): which lines needed which deviation, whatever property is being checked
+InvDeviationLog == \A tag \in dv : PrintT(<<"DEVIATION", tag, "line", l>>)
+
 \* acceptance: the whole trace was consumed
 TraceAccepted ==
     LET d == TLCGet("stats").diameter IN
